@@ -90,7 +90,269 @@ def decides_input_empty(p, exhausted_atoms, LAST, variant):
     return True
 
 
+def _nf(e):
+    try:
+        return add_terms(e)
+    except Exception:
+        return None
+
+
+def _bare(e):
+    e = strip_ref(e)
+    while e[0] in ('deref', 'ref'):
+        e = strip_ref(e[1])
+    return e
+
+
+def _slice_from(e, data):
+    """e = &data[lo..] (or data itself: lo = 0) -> lo; None for anything else"""
+    e = _bare(e)
+    if e == data:
+        return C(0)
+    ix = index_from(e)
+    if ix is not None and len(ix) == 2 and _bare(ix[0]) == data:
+        return ix[1]
+    return None
+
+
+def dec_wrapper(rep, f, c, fn, inner, errvar, repl):
+    """The decoder wrappers, decided against the documented procedure by ghost state instead of by a fixed loop shape.
+    Ghosts: R (input consumed so far), W (output produced so far), F (a malformed sequence was replaced), K (the result of the
+    latest inner call, not yet acted upon; None when there is none).  The procedure is
+        inner(self, &src[R..], &mut dst[W..], last) -> (k, r, w);  R += r;  W += w;  K = k
+        K = InputEmpty/OutputFull: return (K, R, W, F)
+        K = Malformed: dst[W..W+n] = replacement;  W += n;  F = true;  K = none;  call again
+    Every path from the entry to the loop head and every path through the loop (to the back edge or a return) is run through
+    this machine: each inner call, each store and each return must be the next step of the procedure.  At the loop head the
+    ghosts must be held by program locals (an inductive invariant `local = ghost`, found by trying the locals that hold the
+    ghost's value on entry): this is what makes the check independent of whether the call sits at the top of the loop, at its
+    bottom, or once before it."""
+    b = f.body(fn)
+    if b is None:
+        rep.undecidable('C09-D1', fn, 'function not found', None, c)
+        return
+    site = sp_str(b.raw['span'])
+    heads = loop_heads(b)
+    if len(heads) != 1:
+        rep.undecidable('C09-D1', fn, 'expected exactly one loop, found %d' % len(heads), site, c)
+        return
+    H = heads[0]
+    SRC, DST, LAST = ('loc', 2), ('loc', 3), ('loc', 4)
+    adt = f.adts.get('DecoderResult')
+    if adt is None:
+        rep.undecidable('C09-D1', fn, 'DecoderResult not found', site, c)
+        return
+    ALLK = frozenset(v['name'] for v in adt['variants'])
+    n = len(repl)
+    TRUE, FALSE = ('c', 1, 'bool'), ('c', 0, 'bool')
+
+    def const_variant(e):
+        e = _bare(e)
+        if e[0] == 'agg':
+            return variant_name(e)
+        if e[0] == 'cptr' and e[2] == 0 and all(fl['ty'] in ('u8', 'u16', 'u32', 'u64', 'usize') for v in adt['variants'] for fl in v['fields']):
+            # the tag of an enum whose payloads have no niche is its first byte
+            import json as _json
+            tgt = _json.loads(e[1])
+            if 'mem' in tgt and str(tgt['mem']) in f.mems:
+                mb = f.mem_bytes(tgt['mem'])
+                ks = [v['name'] for v in adt['variants'] if mb and v['discr'] == mb[0]]
+                return ks[0] if len(ks) == 1 else None
+        return None
+
+    def machine(p, g):
+        """run the procedure along path p from ghost state g; returns (ghost state at the end, failures, facts)"""
+        R, W, F, K = g['R'], g['W'], g['F'], g['K']
+        poss = set(ALLK)
+        S = 0
+        fails = []
+        facts = {'calls': 0, 'folds': 0, 'returns': set()}
+
+        def at(e):
+            return sp_str(b.blocks[e[-1] if isinstance(e[-1], int) else p.blocks[-1]]['tsp']) if e is not None else sp_str(b.blocks[p.blocks[-1]]['tsp'])
+
+        def fold():
+            nonlocal W, F, K, S
+            if K is not None and poss == {errvar} and S == n:
+                W = ('bin', 'Add', W, C(n))
+                F = TRUE
+                K = None
+                S = 0
+                facts['folds'] += 1
+                return True
+            return False
+
+        for e in p.events:
+            if e[0] == 'cond':
+                ce = e[1]
+                if K is None:
+                    continue
+                if ce[0] == 'variant' and _bare(ce[1]) == _bare(K):
+                    names = e[2] if isinstance(e[2], tuple) else (e[2],)
+                    if None in names or 'None' in names:
+                        listed = {variant_of_edge(b, e[3], l_) for l_, _ in switch_edges(b, e[3])} - {None}
+                        poss -= {str(x) for x in listed}
+                    else:
+                        poss &= {str(x) for x in names}
+                elif ce[0] == 'call' and (ce[1] or '').endswith(('PartialEq>::eq', 'PartialEq>::ne')) and len(ce[2]) == 2 and isinstance(e[2], bool):
+                    a0, a1 = ce[2]
+                    k_ = None
+                    if _bare(a0) == _bare(K):
+                        k_ = const_variant(a1)
+                    elif _bare(a1) == _bare(K):
+                        k_ = const_variant(a0)
+                    if k_ is not None and not next((v for v in adt['variants'] if v['name'] == k_))['fields']:
+                        is_k = ce[1].endswith('::eq') == e[2]
+                        if is_k:
+                            poss &= {k_}
+                        else:
+                            poss -= {k_}
+            elif e[0] == 'call' and e[1] == inner:
+                if K is not None and not fold():
+                    fails.append(('one-inner-call', 'a second call of %s is made although the previous result is not a handled %s '
+                                  '(possible results here: %s; %d of %d replacement units stored)' % (inner, errvar, sorted(poss), S, n), at(e)))
+                args = e[2]
+                lo_s, lo_d = _slice_from(args[1], SRC), _slice_from(args[2], DST)
+                ok = _bare(args[0]) == ('loc', 1) and lo_s is not None and _nf(lo_s) == _nf(R) and lo_d is not None and _nf(lo_d) == _nf(W) and args[3] == LAST
+                if not ok:
+                    fails.append(('inner-args', 'the inner call is not (self, &src[total_read..], &mut dst[total_written..], last) with the totals of '
+                                  'everything read and written so far: src %s dst %s' % (expr_str(args[1], b)[:120], expr_str(args[2], b)[:160]), at(e)))
+                res = ('call', inner, args, e[3])
+                R = ('bin', 'Add', R, tuple_field(res, 1))
+                W = ('bin', 'Add', W, tuple_field(res, 2))
+                K = tuple_field(res, 0)
+                poss = set(ALLK)
+                S = 0
+                facts['calls'] += 1
+            elif e[0] == 'store':
+                place, val = e[1], e[2]
+                pidx = place[2] if place[0] == 'idx' and _bare(place[1]) == DST else None
+                if pidx is None:
+                    fails.append(('replacement-units', 'a store to something other than dst: %s' % expr_str(place, b)[:80], at(e)))
+                    continue
+                if K is None or poss != {errvar}:
+                    fails.append(('replacement-units', 'dst is written although the latest inner result is not known to be %s (possible: %s)'
+                                  % (errvar, 'none pending' if K is None else sorted(poss)), at(e)))
+                    continue
+                if S >= n or _nf(pidx) != _nf(('bin', 'Add', W, C(S))) or not is_c(val, repl[S]):
+                    fails.append(('replacement-units', 'replacement unit %d must be %X stored at dst[total_written + %d]; found %s = %s'
+                                  % (S, repl[min(S, n - 1)], S, expr_str(place, b)[:80], expr_str(val, b)[:40]), at(e)))
+                S += 1
+        end = p.end
+        if end[0] == 'return':
+            rv = p.env.get(0)
+            v = variant_name(rv[2][0]) if rv is not None and rv[0] == 'agg' and len(rv[2]) == 4 else None
+            if K is None or S != 0 or v not in ('InputEmpty', 'OutputFull') or poss != {v}:
+                fails.append(('passthrough', 'returns %s where the latest inner result can be %s%s' % (v, 'none' if K is None else sorted(poss),
+                              '' if S == 0 else ' and replacement units were stored'), at(None)))
+            elif not (_nf(rv[2][1]) == _nf(R) and _nf(rv[2][2]) == _nf(W) and rv[2][3] == F):
+                fails.append(('passthrough-' + v, 'the %s return is not (CoderResult::%s, everything read, everything written, whether anything was replaced): '
+                              'found (%s, %s, %s)' % (v, v, expr_str(rv[2][1], b)[:80], expr_str(rv[2][2], b)[:80], expr_str(rv[2][3], b)[:40]), at(None)))
+            else:
+                facts['returns'].add(v)
+        else:
+            fold()
+            if S != 0:
+                fails.append(('replacement-units', '%d of %d replacement units stored when the iteration ends' % (S, n), at(None)))
+        return {'R': R, 'W': W, 'F': F, 'K': K}, fails, facts
+
+    try:
+        pre = [summarize(b, blks, end) for blks, end in enumerate_block_paths(b, 0, stop=[H])]
+        loop = region_paths(b, H)
+    except OverflowError as e:
+        rep.undecidable('C09-D1', fn, str(e), site, c)
+        return
+    pre = [p for p in pre if p.end[0] != 'diverge']
+    loop = [p for p in loop if p.end[0] != 'diverge']
+    rep.count('paths:' + fn, len(loop) + len(pre))
+    g0 = {'R': C(0), 'W': C(0), 'F': FALSE, 'K': None}
+    fails0, facts_all, ends = [], [], []
+    for p in pre:
+        g, fl, fa = machine(p, g0)
+        fails0 += fl
+        facts_all.append(fa)
+        if p.end[0] != 'return':
+            ends.append((p, g))
+
+    def ob(name, ok, msg, at=None, ex=None):
+        return rep.ob('C09-D1.' + name, fn, ok, msg, at or site, ex, c)
+
+    if not ends:
+        ob('init', False, 'no path from the entry reaches the loop')
+        return
+    in_loop = b.reach_from([H])
+    carried = [i for i, l in enumerate(b.locals) if i > b.arg_count and any(d[0] in in_loop for d in b.defs.get(i, []))
+               and all(i in p.env for p, _ in ends)]
+    cand = {}
+    for X in ('R', 'W'):
+        cand[X] = [l for l in carried if b.locals[l]['ty'] == 'usize' and all(_nf(p.env[l]) == _nf(g[X]) for p, g in ends)]
+    cand['F'] = [l for l in carried if b.locals[l]['ty'] == 'bool' and all(p.env[l] == g['F'] for p, g in ends)]
+    live_k = {g['K'] is not None for _, g in ends}
+    if live_k == {False}:
+        cand['K'] = [None]
+    elif live_k == {True}:
+        cand['K'] = [l for l in carried if all(_bare(p.env[l]) == _bare(g['K']) for p, g in ends)]
+    else:
+        cand['K'] = []
+    for d in fails0:
+        ob(d[0], False, d[1], d[2])
+    ob('init', all(cand[X] for X in cand), 'at the loop head no local holds ' + ', '.join(
+        {'R': 'the total read so far', 'W': 'the total written so far', 'F': 'the error flag', 'K': 'the pending inner result'}[X] for X in cand if not cand[X])
+        + ' (total_read/total_written/flag must be 0/0/false before the first inner call)', None, {X: [b.locals[l].get('name') if l is not None else None for l in cand[X]] for X in cand})
+    if not all(cand[X] for X in cand):
+        return
+    import itertools
+    best = None
+    for lR, lW, lF, lK in itertools.product(cand['R'], cand['W'], cand['F'], cand['K']):
+        if lR == lW:
+            continue
+        gh = {'R': ('init', lR), 'W': ('init', lW), 'F': ('init', lF), 'K': ('init', lK) if lK is not None else None}
+        fails, fas = [], []
+        for p in loop:
+            g, fl, fa = machine(p, gh)
+            fails += fl
+            fas.append(fa)
+            if p.end[0] == 'return':
+                continue
+            tsp = sp_str(b.blocks[p.blocks[-1]]['tsp'])
+            bad = []
+            if _nf(p.env.get(lR, ('init', lR))) != _nf(g['R']):
+                bad.append('total read (%s)' % b.locals[lR].get('name'))
+            if _nf(p.env.get(lW, ('init', lW))) != _nf(g['W']):
+                bad.append('total written (%s)' % b.locals[lW].get('name'))
+            if p.env.get(lF, ('init', lF)) != g['F']:
+                bad.append('error flag (%s)' % b.locals[lF].get('name'))
+            if (lK is None) != (g['K'] is None) or (lK is not None and _bare(p.env.get(lK, ('init', lK))) != _bare(g['K'])):
+                bad.append('pending result')
+            if bad:
+                fails.append(('accumulate', 'after this iteration the %s no longer hold%s what the procedure requires (totals accumulate the inner counts '
+                              'and the replacement units; the flag becomes true exactly when a malformed sequence is replaced)'
+                              % (', '.join(bad), 's' if len(bad) == 1 else ''), tsp))
+        if best is None or len(fails) < len(best[0]):
+            best = (fails, fas, (lR, lW, lF, lK))
+        if not fails:
+            break
+    fails, fas, mp = best if best is not None else ([('init', 'no consistent assignment of locals to the totals', site)], [], None)
+    seen = set()
+    for d in fails:
+        if d not in seen:
+            seen.add(d)
+            ob(d[0], False, d[1], d[2])
+    allf = facts_all + fas
+    rets = set().union(*[fa['returns'] for fa in allf]) if allf else set()
+    ob('arms', not fails and not fails0 and rets == {'InputEmpty', 'OutputFull'} and sum(fa['folds'] for fa in allf) >= 1 and sum(fa['calls'] for fa in allf) >= 1,
+       'not every result kind is handled: returns %s, replacement arms %d' % (sorted(rets), sum(fa['folds'] for fa in allf)), None,
+       {'returns': sorted(rets), 'invariant': {k: (b.locals[l].get('name') if l is not None else None) for k, l in zip('RWFK', mp)} if mp else None})
+    # positive obligations for the evidence: one per path that went through the machine without a failure
+    if not fails and not fails0:
+        for i, p in enumerate(pre + loop):
+            ob('path', True, 'path %d follows the procedure' % i, sp_str(b.blocks[p.blocks[-1]]['tsp']))
+
+
+
 def wrapper(rep, f, c, fn, inner, errvar, repl, is_enc):
+    if not is_enc:
+        return dec_wrapper(rep, f, c, fn, inner, errvar, repl)
     b = f.body(fn)
     if b is None:
         rep.undecidable('C09-D1', fn, 'function not found', None, c)
